@@ -3,7 +3,7 @@ from __future__ import annotations
 import ast
 import z3
 from . import sorts as S
-from .sorts import VNum, VBool, VStr, VSet, VSeq, VOpt, VDict, VTup, VRec, VObj, VFunc, VNone, NONE, VPyList
+from .sorts import VNum, VBool, VStr, VSet, VSeq, VOpt, VDict, VTup, VRec, VObj, VFunc, VNone, NONE, VPyList, VTBDict
 from .core import OutOfReach, State, mk_int, to_real, Exec, UNBOUND, VOpaque, Raise, is_concrete_int, concrete_int
 from .loops import eval_clause, eval_clause_value
 
@@ -73,8 +73,17 @@ def call_value(ex, fv, node, st):
         return inline_lambda(ex, fv, args, kw, st)
     if isinstance(fv.node, ast.ClassDef):
         return construct(ex, fv, args, kw, st, node)
+    if fv.node is None and fv.impl is None:
+        # a function-valued field/parameter: dispatch to the contract of the function it provably is
+        for (rel, qual), info in ex.ctx.registry.contracts.items():
+            if "." in qual or "@" in qual:
+                continue
+            if ex.known(st, fv.term == S.fn_const(qual)):
+                from .core import find_def
+                return apply_contract(ex, info, find_def(rel, qual), args, kw, st, node)
+        raise OutOfReach(f"call through function value {fv.name}: its identity is not determined")
     if isinstance(fv.node, ast.FunctionDef):
-        info = ex.ctx.registry.contracts.get((fv.module, fv.name))
+        info = ex.ctx.registry.lookup_fn(fv.module, fv.name, args)
         if info is None:
             raise OutOfReach(f"call to uncontracted function {fv.name} in expression position")
         if fv.bound is not None:
@@ -201,6 +210,19 @@ def apply_spec(ex, sp, args, st):
     args = [coerce(ex, a, s, st) for a, s in zip(args, sp.args)]
     if sp.is_lemma:
         return lemma_formula(ex, sp, args, st)
+    if isinstance(sp.ret, S.Dict):
+        # dict-valued (opaque) spec function: one symbol for the key set, one for the values
+        if not sp.opaque:
+            raise OutOfReach(f"spec {sp.name}: dict-valued spec functions must be opaque")
+        if sp._z3fn is None:
+            doms = []
+            for s_ in sp.args:
+                doms.extend(flat_sorts(s_))
+            sp._z3fn = (z3.Function("spec_" + sp.name + "_keys", *doms, S.CSetS), z3.Function("spec_" + sp.name + "_vals", *doms, S.RMapS))
+        terms = []
+        for a, s_ in zip(args, sp.args):
+            terms.extend(flatten(ex, a, s_))
+        return VDict(sp._z3fn[0](*terms), sp._z3fn[1](*terms), sp.ret.val)
     if sp._z3fn is None:
         doms = []
         for s in sp.args:
@@ -256,6 +278,10 @@ def flat_sorts(s):
         return [z3.BoolSort()] + flat_sorts(s.inner)
     if isinstance(s, S.Dict):
         return [S.CSetS, S.RMapS]
+    if isinstance(s, S.TBDict):
+        return [z3.BoolSort(), S.CSetS, S.SeqCSet]
+    if s is S.Fn:
+        return [S.FnS]
     if isinstance(s, S.Tup):
         out = []
         for i in s.items:
@@ -279,6 +305,10 @@ def flatten(ex, v, s):
         if isinstance(v, VOpt):
             v = v.val
         return [v.keys, v.vals]
+    if isinstance(s, S.TBDict):
+        return [v.has, z3.If(v.has, v.key, S.EMPTY_SET), z3.If(v.has, v.val, z3.Empty(S.SeqCSet))]
+    if s is S.Fn:
+        return [v.term]
     if isinstance(s, S.Tup):
         out = []
         for it, si in zip(v.items, s.items):
@@ -389,6 +419,23 @@ def mutate_method(ex, name_node, attr, node, st):
         _store_back(ex, name_node, VTup(cur.items + [args[0]]), st)
         return NONE
     if isinstance(cur, VSeq):
+        if attr == "append" and cur.elem is S.StateRef and isinstance(args[0], VObj) and args[0].cls == "ElectionState":
+            o = args[0]
+            ref = z3.Const(S.fresh_name("state"), S.StateRefS)
+            f = o.fields
+            tb = f["tiebreaks"]
+            if isinstance(tb, VTup) and not tb.items:
+                tb = VTBDict(z3.BoolVal(False), S.EMPTY_SET, z3.Empty(S.SeqCSet))
+            if not isinstance(tb, VTBDict):
+                raise OutOfReach("ElectionState.tiebreaks of unsupported shape")
+            sc = f["scores"]
+            st.facts.append(z3.And(S.st_round(ref) == f["round_number"].term, S.st_elected(ref) == ex.as_seq(f["elected"], S.CSet).term,
+                                   S.st_eliminated(ref) == ex.as_seq(f["eliminated"], S.CSet).term,
+                                   S.st_remaining(ref) == ex.as_seq(f["remaining"], S.CSet).term,
+                                   S.st_skeys(ref) == sc.keys, S.st_svals(ref) == sc.vals,
+                                   S.st_tb_has(ref) == tb.has, z3.Implies(tb.has, z3.And(S.st_tb_key(ref) == tb.key, S.st_tb_val(ref) == tb.val))))
+            _store_back(ex, name_node, VSeq(z3.Concat(cur.term, z3.Unit(ref)), cur.elem, cur.kind), st)
+            return NONE
         if attr == "append":
             t = z3.Concat(cur.term, z3.Unit(ex.term_of(args[0], cur.elem)))
             _store_back(ex, name_node, VSeq(t, cur.elem, cur.kind), st)
@@ -552,6 +599,12 @@ def call_stmt(ex: Exec, node: ast.Call, st: State, target):
     if callee is not None:
         rel, qual, fnode, selfobj = callee
         info = ex.ctx.registry.lookup(rel, qual, selfobj.cls if isinstance(selfobj, VObj) else None)
+        if selfobj is None and "." not in qual:
+            try:
+                a0, _ = eval_args(ex, node, st)
+                info = ex.ctx.registry.lookup_fn(rel, qual, a0)
+            except OutOfReach:
+                pass
         if info is None or info.inline:
             return inline_call(ex, rel, qual, fnode, selfobj, info, node, st, target)
         args, kw = eval_args(ex, node, st)
